@@ -47,6 +47,8 @@ pub enum WOp {
     Write(usize),
     WriteAll(usize),
     Flush,
+    /// the body's data source fails here: `Body::write` returns an error (nothing after it is written)
+    Fail,
 }
 
 #[derive(Debug, Clone, Serialize, Deserialize)]
@@ -62,7 +64,7 @@ impl Program {
             .iter()
             .map(|o| match o {
                 WOp::Write(n) | WOp::WriteAll(n) => *n,
-                WOp::Flush => 0,
+                WOp::Flush | WOp::Fail => 0,
             })
             .sum()
     }
@@ -112,6 +114,7 @@ impl Body for ProgBody {
                     pos += n;
                 }
                 WOp::Flush => w.flush()?,
+                WOp::Fail => return Err(std::io::Error::new(std::io::ErrorKind::Other, "body source failed")),
             }
         }
         Ok(())
@@ -203,8 +206,21 @@ pub fn wop() -> BoxedStrategy<WOp> {
     .boxed()
 }
 
+pub fn program_ops() -> BoxedStrategy<Vec<WOp>> {
+    // one program in eight fails somewhere
+    prop_oneof![
+        7 => proptest::collection::vec(wop(), 0..7),
+        1 => (proptest::collection::vec(wop(), 0..5), proptest::collection::vec(wop(), 0..3)).prop_map(|(mut a, b)| {
+            a.push(WOp::Fail);
+            a.extend(b);
+            a
+        }),
+    ]
+    .boxed()
+}
+
 pub fn program() -> BoxedStrategy<Program> {
-    (any::<bool>(), proptest::collection::vec(wop(), 0..7), any::<u32>())
+    (any::<bool>(), program_ops(), any::<u32>())
         .prop_map(|(chunked, ops, seed)| Program { chunked, ops, seed })
         .boxed()
 }
@@ -228,12 +244,12 @@ pub fn body_spec() -> BoxedStrategy<BodySpec> {
 
 pub fn header_name() -> BoxedStrategy<String> {
     prop_oneof![
-        3 => prop_oneof![Just("x-a"), Just("X-A"), Just("x-b"), Just("accept"), Just("Accept"), Just("user-agent"), Just("content-type"), Just("accept-encoding"), Just("x-c"), Just("cookie")].prop_map(|s| s.to_string()),
+        3 => prop_oneof![Just("x-a"), Just("X-A"), Just("x-b"), Just("accept"), Just("Accept"), Just("user-agent"), Just("content-type"), Just("accept-encoding"), Just("x-c"), Just("cookie"), Just("connection"), Just("Connection")].prop_map(|s| s.to_string()),
         2 => "[!#$%&'*+.^_`|~0-9A-Za-z-]{1,16}".prop_map(|s| s),
     ]
     .prop_map(|n| {
         let l = n.to_ascii_lowercase();
-        if ["host", "connection", "content-length", "transfer-encoding", "authorization"].contains(&l.as_str()) {
+        if ["host", "content-length", "transfer-encoding", "authorization"].contains(&l.as_str()) {
             format!("x-{n}")
         } else {
             n
@@ -540,7 +556,7 @@ non-trivial = a body or >= 1 param or a custom program with >= 2 writes";
 
     fn assumptions() -> Vec<String> {
         vec![
-            "caller-supplied framing headers (host, connection, content-length, transfer-encoding) are outside the generated domain: the library owns them".into(),
+            "caller-supplied host, content-length and transfer-encoding fields are outside the generated domain (the library owns them); a caller-supplied Connection field is generated and must be replaced by close".into(),
             "header values have no leading/trailing blanks (not representable in a field value); header order between names is not compared".into(),
             "custom KnownLength bodies write exactly the announced number of bytes (the contract a caller must keep)".into(),
         ]
@@ -578,6 +594,27 @@ non-trivial = a body or >= 1 param or a custom program with >= 2 writes";
         let rb = rb.proxy_settings(no_proxy()).allow_compression(case.allow_compression);
         let rb = apply_ops(rb, &case.ops, &mut model, &mut params);
         let sent = send_with_body(rb, &case.body);
+        if let BodySpec::Custom(p) = &case.body {
+            if p.ops.iter().any(|o| matches!(o, WOp::Fail)) {
+                // the body's source failed: the exchange fails, and a truncated body is never presented as a complete request
+                ctx.label("custom:failing-body");
+                ctx.nontrivial = true;
+                if sent.result.is_ok() {
+                    return Outcome::fail("C07:failing-body-ignored", "Body::write returned an error but send() succeeded".to_string());
+                }
+                let n = net.lock().unwrap();
+                let written = n.dials.first().map(|d| d.1.lock().unwrap().written.clone()).unwrap_or_default();
+                if let Ok(req) = parse_single(&written) {
+                    if req.body != p.data() {
+                        return Outcome::fail(
+                            "C07:truncated-body-looks-complete",
+                            format!("the body failed after {} of {} bytes, yet the bytes on the wire are a complete, well-formed request ({:?})", req.body.len(), p.data().len(), req.framing),
+                        );
+                    }
+                }
+                return Outcome::Pass;
+            }
+        }
         if let Err(e) = &sent.result {
             return Outcome::fail(format!("C07:send-failed:{}", case.body.name()), format!("{e:?}"));
         }
